@@ -21,6 +21,109 @@ from .docmodel import word
 from .writers import docx as wdocx, misc, odf, pptx as wpptx, web, xlsx as wxlsx
 from .writers.images import MAKERS
 
+# ----------------------------------------------------------------------------- image files: header variants
+# The shared encoders (writers/images.py) write one header layout per kind.  Real encoders legally write others;
+# every variant declares the pixel size (w, h) the caller asked for (BMP: |height|).
+IMAGE_VARIANTS = {
+    "jpeg": ["baseline", "dht-before-sof", "dht-dqt-sof", "exif-before-jfif", "progressive-sof2", "comment", "dri"],
+    "png": ["plain", "ancillary-before-idat", "srgb-split-idat"],
+    "gif": ["gif89a", "gif87a", "gif89a-extensions"],
+    "bmp": ["info-bottom-up", "info-top-down", "v4", "v5-top-down"],
+}
+
+
+def _jpeg_variant(w, h, seed, variant):
+    import struct
+
+    def seg(marker, payload):
+        return b"\xff" + bytes([marker]) + struct.pack(">H", len(payload) + 2) + payload
+    app0 = seg(0xE0, b"JFIF\x00\x01\x01\x00\x00\x01\x00\x01\x00\x00")
+    dqt = seg(0xDB, b"\x00" + bytes([16 + (seed % 8)] * 64))
+    frame = struct.pack(">BHHB", 8, h, w, 1) + b"\x01\x11\x00"
+    sof = seg(0xC2 if variant == "progressive-sof2" else 0xC0, frame)
+    # Huffman tables whose code-length counts start with 5, 1 / 0, 5: read as a frame header they give a
+    # different size (that is what a sniffer taking DHT for a frame header would report)
+    dht = seg(0xC4, b"\x00" + bytes([0, 5, 1] + [0] * 13) + bytes(range(6))) + seg(0xC4, b"\x10" + bytes([1] + [0] * 15) + b"\x00")
+    sos = seg(0xDA, b"\x01\x01\x00" + b"\x00\x3f\x00")
+    scan = bytes([seed & 0x7F] + [0x00] * max(1, (2 * ((w + 7) // 8) * ((h + 7) // 8) + 7) // 8))
+    if variant == "baseline" or variant == "progressive-sof2":
+        body = app0 + dqt + sof + dht
+    elif variant == "dht-before-sof":
+        body = app0 + dqt + dht + sof
+    elif variant == "dht-dqt-sof":
+        body = app0 + dht + dqt + sof
+    elif variant == "exif-before-jfif":
+        # Exif APP1 in front of JFIF, holding a thumbnail JPEG with a frame header of its own (8 x 8)
+        thumb = b"\xff\xd8" + seg(0xC0, struct.pack(">BHHB", 8, 8, 8, 1) + b"\x01\x11\x00") + b"\xff\xd9"
+        tiff = b"II*\x00\x08\x00\x00\x00" + b"\x00\x00" + b"\x00\x00\x00\x00"
+        body = seg(0xE1, b"Exif\x00\x00" + tiff + thumb) + app0 + dqt + sof + dht
+    elif variant == "comment":
+        body = app0 + seg(0xFE, b"made by c14 \xc0\xc4 test encoder") + dqt + dht + sof
+    elif variant == "dri":
+        body = app0 + dqt + seg(0xDD, struct.pack(">H", 4)) + sof + dht
+    else:
+        raise ValueError(variant)
+    return b"\xff\xd8" + body + sos + scan + b"\xff\xd9"
+
+
+def _png_variant(w, h, seed, variant):
+    import struct
+    import zlib
+
+    def chunk(t, d):
+        return struct.pack(">I", len(d)) + t + d + struct.pack(">I", zlib.crc32(t + d) & 0xFFFFFFFF)
+    raw = b"".join(b"\x00" + b"".join(bytes(((x * 7 + y * 13 + seed) & 0xFF, (x + seed) & 0xFF, (y * 3) & 0xFF))
+                                        for x in range(w)) for y in range(h))
+    z = zlib.compress(raw)
+    head = b"\x89PNG\r\n\x1a\n" + chunk(b"IHDR", struct.pack(">IIBBBBB", w, h, 8, 2, 0, 0, 0))
+    if variant == "plain":
+        mid, idat = b"", chunk(b"IDAT", z)
+    elif variant == "ancillary-before-idat":
+        mid = (chunk(b"gAMA", struct.pack(">I", 45455)) + chunk(b"pHYs", struct.pack(">IIB", 2835, 2835, 1))
+               + chunk(b"tEXt", b"Software\x00c14 test encoder"))
+        idat = chunk(b"IDAT", z)
+    elif variant == "srgb-split-idat":
+        mid = chunk(b"sRGB", b"\x00") + chunk(b"tIME", struct.pack(">HBBBBB", 2024, 1, 1, 0, 0, 0))
+        k = max(1, len(z) // 2)
+        idat = chunk(b"IDAT", z[:k]) + chunk(b"IDAT", z[k:])
+    else:
+        raise ValueError(variant)
+    return head + mid + idat + chunk(b"IEND", b"")
+
+
+def _gif_variant(w, h, seed, variant):
+    import struct
+    sig = b"GIF87a" if variant == "gif87a" else b"GIF89a"
+    ext = b""
+    if variant == "gif89a-extensions":
+        ext = (b"\x21\xfe" + bytes([8]) + b"c14 test" + b"\x00"                      # comment extension
+               + b"\x21\xf9\x04\x00\x0a\x00\x00\x00")                               # graphic control extension
+    return (sig + struct.pack("<HH", w, h) + b"\x80\x00\x00" + bytes((seed & 0xFF, (seed >> 8) & 0xFF, 0, 255, 255, 255)) + ext
+            + b"\x2c" + struct.pack("<HHHH", 0, 0, w, h) + b"\x00" + b"\x02\x02\x44\x01\x00" + b"\x3b")
+
+
+def _bmp_variant(w, h, seed, variant):
+    import struct
+    row = b"".join(bytes(((x + seed) & 0xFF, (seed >> 8) & 0xFF, 0x80)) for x in range(w))
+    data = (row + b"\x00" * ((-len(row)) % 4)) * h
+    hsize = {"info-bottom-up": 40, "info-top-down": 40, "v4": 108, "v5-top-down": 124}[variant]
+    stored_h = -h if variant in ("info-top-down", "v5-top-down") else h
+    hdr = struct.pack("<IiiHHIIiiII", hsize, w, stored_h, 1, 24, 0, len(data), 2835, 2835, 0, 0)
+    if hsize >= 108:      # V4: colour masks, colour space type "sRGB", endpoints, gamma; V5: + intent, profile, reserved
+        hdr += struct.pack("<IIII", 0, 0, 0, 0) + b"BGRs" + b"\x00" * 36 + struct.pack("<III", 0, 0, 0)
+    if hsize == 124:
+        hdr += struct.pack("<IIII", 4, 0, 0, 0)
+    assert len(hdr) == hsize
+    return b"BM" + struct.pack("<IHHI", 14 + hsize + len(data), 0, 0, 14 + hsize) + hdr + data
+
+
+def make_image(kind: str, w: int, h: int, seed: int = 0, variant: str | None = None) -> bytes:
+    """An image file of the kind with the declared pixel size (w, h) in the chosen header variant."""
+    kind = "jpeg" if kind == "jpg" else kind
+    variant = variant or IMAGE_VARIANTS[kind][0]
+    return {"jpeg": _jpeg_variant, "png": _png_variant, "gif": _gif_variant, "bmp": _bmp_variant}[kind](w, h, seed, variant)
+
+
 REL_IMAGE = "http://schemas.openxmlformats.org/officeDocument/2006/relationships/image"
 
 
